@@ -439,3 +439,6 @@ func (in *Interp) HostPanicErr(at *Val) *Err {
 	e.HostPanic = true
 	return e
 }
+
+// Errf builds an error raised by host code at form `at`.
+func (in *Interp) Errf(at *Val, cond, format string, a ...any) *Err { return in.errf(at, cond, format, a...) }
